@@ -1,6 +1,7 @@
 import Abmarl.Model.Wire
 import Abmarl.Model.MgrDriver
 import Abmarl.Model.GridDriver
+import Abmarl.Model.TrainerDriver
 /-! Line-protocol driver: one request per line on stdin, one reply per line on stdout. -/
 open Abmarl
 
@@ -11,6 +12,7 @@ def dispatch (line : String) : String :=
       match op with
       | "mgr" => MgrDriver.handle args
       | "gmove" => GridDriver.handle args
+      | "trainer" => TrainerDriver.handle args
       | "ping" => some (.list (.atom "pong" :: args))
       | _ => none
     match r with
